@@ -6,6 +6,13 @@ import vsrun
 PROP = "C04"
 
 
+def own(lines):
+    """the harness's own messages only: Qt itself may log through the installed handler too (e.g. 'QEventLoop: Cannot be used
+    without QApplication' from a worker that starts its loop after the application object is gone) - those are not ours to count"""
+    import re
+    return [l for l in lines if re.match(r"^(m\d+|late)@(main|other)$", l)]
+
+
 def real_qt(tier):
     """the same shutdown paths on the REAL Qt (no model), slow sink: must exit in time with delivered == accepted"""
     lib = vlib.build_lib("plain")
@@ -24,7 +31,7 @@ def real_qt(tier):
                     rc = r.returncode
                 except subprocess.TimeoutExpired:
                     rc = "timeout"
-                got = open(out).read().split() if os.path.exists(out) else []
+                got = own(open(out).read().split("\n")) if os.path.exists(out) else []
                 if os.path.exists(out):
                     os.unlink(out)
                 n += 1
@@ -44,7 +51,92 @@ def real_qt(tier):
                     key = "real-qt:late-not-synchronous"
                 if what:
                     viols.append({"key": key, "what": what, "replay": vlib.write_replay(PROP, "realqt-%d-%d-%s" % (path, b, disp), {"path": path, "backlog": b, "dispatcher": disp, "delivered": got})})
+    # lifecycle histories on the real Qt: the default schedule with the worker running ahead (a pause after every operation)
+    import concurrent.futures
+    hs = histories(4 if tier == "quick" else 5)
+
+    def one(h):
+        out = tempfile.mktemp(prefix="verif-c04h-", dir="/dev/shm")
+        try:
+            r = subprocess.run([exe, "hist", h, out, "25"], capture_output=True, timeout=30, env=dict(os.environ, LC_ALL="C.UTF-8"))
+            rc = r.returncode
+        except subprocess.TimeoutExpired:
+            rc = "timeout"
+        got = own(open(out).read().split("\n")) if os.path.exists(out) else []
+        if os.path.exists(out):
+            os.unlink(out)
+        return h, rc, got
+    with concurrent.futures.ThreadPoolExecutor(max_workers=vlib.NCPU) as ex:
+        for h, rc, got in ex.map(one, hs):
+            n += 1
+            want = ["m%d" % i for i in range(h.count("L"))]
+            texts = [g.split("@")[0] for g in got]
+            if rc == "timeout":
+                viols.append({"key": "real-qt:stop-hangs:history", "what": "real Qt, history %s: the process did not finish within 30 s (delivered %r)" % (h, got),
+                              "replay": vlib.write_replay(PROP, "realqt-hist-%s" % h, {"history": h, "delivered": got})})
+            elif rc != 0:
+                raise vlib.EngineError("c04real hist %s failed rc=%r" % (h, rc))
+            elif texts != want:
+                viols.append({"key": "real-qt:lost-or-duplicated:history", "what": "real Qt, history %s: delivered %r, accepted %r" % (h, got, want),
+                              "replay": vlib.write_replay(PROP, "realqt-hist-%s" % h, {"history": h, "delivered": got})})
     return viols, n
+
+
+def histories(maxlen, maxL=3, maxM=2, maxX=2, maxA=2):
+    """every well-formed operation history up to maxlen (see engine/vsched/vsx.cpp, scenarioC04X) that moves and logs at least once"""
+    out = []
+
+    def rec(h, app, moved, nL, nM, nX, nA):
+        if h:
+            out.append(h)
+        if len(h) == maxlen:
+            return
+        for op in "AaMLRXE":
+            if op == "A" and (app or nA >= maxA): continue
+            if op == "a" and not app: continue
+            if op in "XE" and not app: continue
+            if op == "E" and h.endswith("E"): continue
+            if op == "L" and nL >= maxL: continue
+            if op == "M" and nM >= maxM: continue
+            if op == "X" and nX >= maxX: continue
+            if op == "R" and (not moved or h.endswith("RR")): continue
+            rec(h + op, (op == "A") if op in "Aa" else app, moved or op == "M", nL + (op == "L"), nM + (op == "M"), nX + (op == "X"), nA + (op == "A"))
+    rec("", False, False, 0, 0, 0, 0)
+    return [h for h in out if "M" in h and "L" in h]
+
+
+def hist_file(name, lines):
+    p = os.path.join(vlib.BUILD, name)
+    os.makedirs(vlib.BUILD, exist_ok=True)
+    with open(p, "w") as f:
+        f.write("\n".join(lines) + "\n")
+    return p
+
+
+def lifecycle_scenarios(tier):
+    scs = []
+    if tier == "quick":
+        h5, h4 = histories(5), histories(4)
+        scs.append({"scenario": "c04xh", "hists-file": hist_file("c04-hist-5.txt", h5), "bound": 1, "glib": 1, "_shards": vlib.NCPU, "_nhist": len(h5)})
+        scs.append({"scenario": "c04xl", "hists-file": hist_file("c04-hist-4.txt", h4), "bound": 1, "glib": 0, "_shards": vlib.NCPU, "_nhist": len(h4)})
+        rc = ["%s %d 1" % (h, i) for h in h4 for i in range(len(h) + 1)]
+        scs.append({"scenario": "c04xh", "hists-file": hist_file("c04-hist-4-racer.txt", rc), "bound": 1, "glib": 1, "_shards": vlib.NCPU, "_nhist": len(rc)})
+        h7 = histories(7)      # long histories under the default schedule only (the worker runs ahead after every operation)
+        scs.append({"scenario": "c04xh", "hists-file": hist_file("c04-hist-7.txt", h7), "bound": 0, "glib": 1, "_shards": vlib.NCPU, "_nhist": len(h7)})
+    else:
+        h8 = histories(8)
+        scs.append({"scenario": "c04xh", "hists-file": hist_file("c04-hist-8.txt", h8), "bound": 0, "glib": 1, "_shards": 2 * vlib.NCPU, "_nhist": len(h8)})
+        scs.append({"scenario": "c04xl", "hists-file": hist_file("c04-hist-8.txt", h8), "bound": 0, "glib": 0, "_shards": 2 * vlib.NCPU, "_nhist": len(h8)})
+        h6, h5, h4 = histories(6), histories(5), histories(4)
+        scs.append({"scenario": "c04xh", "hists-file": hist_file("c04-hist-6.txt", h6), "bound": 1, "glib": 1, "_shards": 2 * vlib.NCPU, "_nhist": len(h6)})
+        scs.append({"scenario": "c04xl", "hists-file": hist_file("c04-hist-6.txt", h6), "bound": 1, "glib": 0, "_shards": 2 * vlib.NCPU, "_nhist": len(h6)})
+        scs.append({"scenario": "c04xh", "hists-file": hist_file("c04-hist-5.txt", h5), "bound": 2, "glib": 0, "_shards": 2 * vlib.NCPU, "_nhist": len(h5)})
+        scs.append({"scenario": "c04xl", "hists-file": hist_file("c04-hist-4.txt", h4), "bound": 3, "glib": 1, "_shards": vlib.NCPU, "_nhist": len(h4)})
+        rc = ["%s %d %d" % (h, i, n) for h in h5 for i in range(len(h) + 1) for n in (1, 2)]
+        scs.append({"scenario": "c04xh", "hists-file": hist_file("c04-hist-5-racer.txt", rc), "bound": 1, "glib": 1, "_shards": 2 * vlib.NCPU, "_nhist": len(rc)})
+        rc4 = ["%s %d 1" % (h, i) for h in h4 for i in range(len(h) + 1)]
+        scs.append({"scenario": "c04xl", "hists-file": hist_file("c04-hist-4-racer.txt", rc4), "bound": 2, "glib": 1, "_shards": vlib.NCPU, "_nhist": len(rc4)})
+    return scs
 
 
 def run(tier):
@@ -69,6 +161,7 @@ def run(tier):
                 dict(scenario="c04h2", backlog=2, racer=1, bound=3, glib=1), dict(scenario="c04l1", backlog=2, racer=1, bound=2, glib=0),
                 dict(scenario="c04l2", backlog=1, racer=1, cycles=2, bound=2, glib=1), dict(scenario="c04h2", backlog=2, racer=1, cycles=2, bound=2, glib=0)]
         dl = 2400
+    scs += lifecycle_scenarios(tier)
     rq_viols, rq_n = real_qt(tier)
     return vsrun.vs_check(
         PROP, tier, scs, deadline_s=dl,
@@ -77,7 +170,11 @@ def run(tier):
              "both event-dispatcher variants x a bare OwnThreadHandler<Pipeline> and a Logger, optionally 2 move/reset cycles; timeouts of wait(3000) are explored as deviations; oracle per "
              "execution: the stop returns (no deadlock, no livelock in the drain loop), every message accepted before the stop began is delivered when the stop returns, delivered multiset = "
              "accepted multiset (no loss, no duplicate), messages logged after the stop are handled synchronously on the caller's thread, no event is posted to a destroyed worker and no sink "
-             "runs after the handler was destroyed; in addition each path x backlog runs once on the real Qt (slow sink) and must exit in time with delivered == accepted",
+             "runs after the handler was destroyed; in addition each path x backlog runs once on the real Qt (slow sink) and must exit in time with delivered == accepted. "
+             "LIFECYCLE HISTORIES (scenario c04x*): every well-formed sequence up to the length bound of {create / destroy the application object, moveToOwnThread, log, resetOwnThread, "
+             "quit+exec (aboutToQuit), nested event loop until idle} on one handler, ended by its destruction, optionally with a racing producer started at every position; each history is "
+             "explored over all schedules up to the deviation bound with the same oracles after every stop operation (the stop returns; everything accepted before it is delivered; "
+             "messages logged while no logger thread exists are handled synchronously on the caller's thread; at the end delivered = accepted, exactly once, per-thread order)",
         assumptions=vsrun.VS_ASSUMPTIONS + ["a racing producer is only explored on paths 1 and 2: calling into an object while its destructor runs is undefined behaviour of the caller"],
         extra_violations=rq_viols, extra_cov={"real_qt_runs": rq_n})
 
